@@ -31,6 +31,24 @@ def quiet():
             yield
 
 
+def sync_scheduler(check):
+    """Decorator for check functions: run everything under ``scheduler="sync"``, including the computations dask
+    starts on its own while building a collection (quantile divisions of set_index/sort_values, ``.divisions``,
+    ``optimize()``).  Without it those nested computes use the threaded scheduler; once the parent process has created
+    dask's default thread pool (it runs the committed replays before the worker pool forks) the forked workers inherit
+    a pool without threads and block forever in ``queue_get``."""
+    import functools
+
+    @functools.wraps(check)
+    def wrapper(spec):
+        import dask
+
+        with dask.config.set(scheduler="sync"):
+            return check(spec)
+
+    return wrapper
+
+
 def shift_value(v, k):
     """A value k 'units' away from index value v (ints: k, datetimes: k hours, str: suffix/prefix)."""
     if k == 0:
